@@ -664,3 +664,15 @@
 ; the conversion that GetConversion (unsafe = false) / GetConversionUnsafe (true) answers for a pair of
 ; types, nil.Func when there is none (assumed to be a function of the two types; C09)
 (declare-fun conv_fn (cty.Type cty.Type Bool) Func)
+
+; ---- MessagePack encoder (C16): the last token handed to the third-party encoder, as a ghost observation
+; ---- of the encoder object (what the byte stream carries for a number is decided by this token alone)
+(declare-datatypes ((Tok 0)) (((tok_none) (tok_int (tok_int.v Int)) (tok_f64 (tok_f64.v F64)) (tok_str (tok_str.v String)) (tok_nil) (tok_bool (tok_bool.v Bool)))))
+(declare-fun enc.last (github.com/vmihailenco/msgpack/v5.Encoder) Tok)
+; Float64(): accuracy Exact for a finite number means that the float64 is finite and has exactly that value
+(assert (forall ((x math/big.Float)) (! (=> (and (= (bf.accf64 x) 0) (= (bf.inf x) 0)) (and (f64.finite (bf.f64 x)) (= (f64.real (bf.f64 x)) (bf.val x)))) :pattern ((bf.accf64 x)))))
+; the number a decoder reads back from a numeric token (string tokens are parsed: not modelled)
+(define-fun tok_exact ((t Tok) (r Real)) Bool
+  (and (=> ((_ is tok_int) t) (= (to_real (tok_int.v t)) r))
+       (=> ((_ is tok_f64) t) (and (f64.finite (tok_f64.v t)) (= (f64.real (tok_f64.v t)) r)))
+       (or ((_ is tok_int) t) ((_ is tok_f64) t) ((_ is tok_str) t))))
